@@ -314,9 +314,12 @@ func (r *Run) atomOne(op atomOp, st *atomStats, uuidSeed *int64) *Violation {
 	S.RecordEvents, S.EvtLog = true, nil
 	S.ResetEvents()
 	start2 := time.Now()
+	cleanPreT, _ := w2.Dump(op.pullType)
 	cleanErr := op.run(w2, context.Background())
 	evts := append([]byte(nil), S.EvtLog...)
 	S.RecordEvents = false
+	cleanPostT, _ := w2.Dump(op.pullType)
+	cleanChanges := cleanPreT != cleanPostT // does the operation, run cleanly, change the tables at all?
 	cleanDump, _ := w2.Dump(false)
 	cleanDump = normDump(cleanDump, start2, preTS)
 	w2.Close()
@@ -341,6 +344,9 @@ func (r *Run) atomOne(op atomOp, st *atomStats, uuidSeed *int64) *Violation {
 	// ---- 2. every k, every applicable kind
 	for k := 1; k <= n; k++ {
 		kinds := []FaultKind{FaultStmtErr, FaultCancel, FaultConnLoss}
+		if evts[k-1] == 's' {
+			kinds = append(kinds, FaultCancelAfter)
+		}
 		if evts[k-1] == 'c' {
 			kinds = []FaultKind{FaultCommitErr, FaultCancel, FaultConnLoss}
 		}
@@ -394,6 +400,9 @@ func (r *Run) atomOne(op atomOp, st *atomStats, uuidSeed *int64) *Violation {
 				if post != pre {
 					// a success changes state: everything after this is a different cell
 					return r.atomFinish(op, st, seed, cleanDump, preTS, true)
+				}
+				if cleanChanges {
+					return viol("C09", "success_without_effect", "%s reported success (fault %v at driver event %d of %d, kind %c) but left the tables unchanged, while the same operation without a fault changes them", op.name, kind, k, n, evts[k-1])
 				}
 				continue
 			}
